@@ -667,6 +667,10 @@ class PrefixFlow:
             if owner is not None:
                 work.append((owner, t.id))
                 return
+        if cls is None and isinstance(t, ast.Attribute) and isinstance(t.value, ast.Name) and t.value.id in ('self', 'cls'):
+            # the pending prefix lives on an object: its provenance is a whole-class dataflow this rule does not model
+            raise AnalysisError('RX-2: the prefix text %s is object state (%s): the tokenizer was restructured beyond what the '
+                                'prefix dataflow follows' % (norm(t), f.qual))
         if cls is None:
             self.violations += 1
             self.rep.ob('RX-2', TOK, f.qual, head(self._stmt_of(site)), False,
@@ -1416,3 +1420,84 @@ def rx_12(ctx, rep):
                    'has width one, treating it as zero-width shifts every column behind it')
     rep.stat('rx12_bom_constants', sum(len(v) for v in names.values()))
     rep.minimum('RX-12', 4)
+
+
+# ---------------------------------------------------------------------------------------------------------------
+# RX-13  the lexical patterns do not care how a line break is spelled
+def respell_line_breaks(A, repl):
+    """NFA of the image of  L(A) & (no CR)*  under the homomorphism  LF -> ``repl``."""
+    B = rx.NFA(A.top)
+    B.n = A.n
+    for s, ts in A.eps.items():
+        B.eps[s] |= set(ts)
+    CR, LF = ord('\r'), ord('\n')
+    no_breaks = rx.CS.of([CR, LF]).complement(A.top)
+    for s, lst in A.tr.items():
+        for cs, t in lst:
+            if not isinstance(cs, rx.CS):
+                B.tr[s].append((cs, t))
+                continue
+            rest = cs & no_breaks
+            if rest:
+                B.tr[s].append((rest, t))
+            if LF in cs:
+                cur = s
+                for i, ch in enumerate(repl):
+                    nxt = t if i == len(repl) - 1 else B.new()
+                    B.tr[cur].append((rx.CS.of([ord(ch)]), nxt))
+                    cur = nxt
+    B.start, B.final = A.start, A.final
+    return B
+
+
+def rx_13(ctx, rep):
+    rep.rule('RX-13', 'every compiled pattern of the tokenizer and of the prefix splitter is blind to the spelling of line breaks: '
+                      'when a text with LF line ends matches, the same text with CRLF and with CR line ends matches too '
+                      '(image of the LF-only part of the language under LF -> CRLF / CR is included in the language)')
+    TOKP = 'parso/python/tokenize.py'
+    PREFIXP = 'parso/python/prefix.py'
+    pats = {}
+    for version in ((3, 6), (3, 12)):
+        env = ctx.token_collection(version)
+        for k, v in env.items():
+            if k.startswith('$') or k[:1].isupper():
+                continue
+            if isinstance(v, Rx):
+                pats.setdefault((TOKP, k), v)
+            elif isinstance(v, dict):
+                for kk, vv in v.items():
+                    if isinstance(vv, Rx):
+                        pats.setdefault((TOKP, '%s[%r]' % (k, kk)), vv)
+    for rel in (TOKP, PREFIXP):
+        folder = ctx.folder(rel)
+        mod = ctx.prog.mod(rel)
+        for name in sorted(mod.globals):
+            try:
+                v = folder.get(name)
+            except AnalysisError:
+                continue
+            if isinstance(v, Rx):
+                pats.setdefault((rel, name), v)
+    seen_sources = {}
+    n = 0
+    for (rel, name), v in sorted(pats.items()):
+        key = (v.source, v.flags)
+        if key in seen_sources:
+            continue
+        seen_sources[key] = name
+        if not any(c in v.source for c in ('\\n', '\\r', '\n', '\r', '.', '[^', '\\s', '\\S', '\\W', '\\D')):
+            continue            # cannot match a line break at all
+        try:
+            A = rx.compile_nfa(v.source, v.flags)
+        except AnalysisError as e:
+            rep.skip('RX-13', rel, '<module>', 'pattern %s' % name, 'outside the regular fragment of the engine (%s)' % e)
+            continue
+        for label, repl in (('CRLF', '\r\n'), ('CR', '\r')):
+            n += 1
+            w = rx.included(respell_line_breaks(A, repl), A)
+            rep.ob('RX-13', rel, '<module>', 'pattern %s: LF -> %s' % (name, label), w is None,
+                   'the pattern matches a text with LF line ends but not the same text with %s line ends (%r): the token or '
+                   'prefix part ends at a different place in a file that differs only in its line-end convention'
+                   % (label, w), witness=w)
+    rep.stat('rx13_patterns', len(seen_sources))
+    rep.minimum('RX-13', 12)
